@@ -188,7 +188,14 @@ class NormLRAMacro(Macro):
 
     def get_proof_term(self, args, prevs) -> ProofTerm:
         goal = args[0]
-        return verit_conv.norm_lra_conv().get_proof_term(goal)
+        pt = verit_conv.norm_lra_conv().get_proof_term(goal)
+        expected = from_real_la(to_la(goal))
+        if pt.rhs != expected:
+            # The conversion writes the normal form differently from from_real_la
+            # (1 * x for x, no leading 0, other bracketing): connect the two
+            # by polynomial normalisation.
+            pt = pt.transitive(ProofTerm("real_norm", hol_term.Eq(pt.rhs, expected)))
+        return pt
 
 
 def coeffs_gcd(sum_tm: hol_term.Term) -> int:
